@@ -362,6 +362,8 @@ func c14TextHistoryPlan(quick bool) *SeqPlan {
 		op(0, L(0, 2, 1, 0, 60, 0, 1)), op(1, f(L(0, 1, 1, 0, 50, 1, 2), 0x01)), op(0, f(L(0, 1, 1, 0, 90, 1, 2), 0x02)), op(1, L(0, 1, 4, 0, 0, 1, 0)),
 		op(0, U(0, 1, 1)), op(0, hapi.Cmd{Type: 2, Key: 1, Id: 1, Rcount: 1}), op(1, U(0, 1, 2)), op(1, hapi.Cmd{Type: 2, Key: 1, Id: 9, Flag: 0x01}),
 		op(0, hapi.Cmd{Type: 2, Key: 1, Id: 3, Flag: 0x02}), op(0, U(0, 2, 1)), op(1, U(0, 1, 3)),
+		// a hold that ends by time while its connection is idle, then more requests on that connection
+		op(0, L(0, 3, 5, 0, 1, 0, 0)), tick(3 * sec),
 	}
 	d := 3
 	if !quick {
